@@ -5,7 +5,7 @@ A_GEN = "cases are generated from VERIF_SEED; nothing is claimed about inputs th
 
 PROPS = {}
 NOT_APPLICABLE = {}
-HOOK_COMMITS = ["2f15b1b", "606c23c", "653ad06"]
+HOOK_COMMITS = ["2f15b1b", "606c23c", "653ad06", "c63cdaa"]
 
 PROPS["C19"] = dict(
     title="Log-domain addition is accurate, commutative and monotone",
@@ -386,13 +386,13 @@ PROPS["C04"] = dict(
                                                               "phones_compared_with_dictionary": 1500, "single_phone_words_checked": 20, "state_paths_rescored": 50,
                                                               "word_scores_equal_to_first_pass": 100, "json_state_level_compared": 30, "json_phone_level_compared": 30,
                                                               "stale_alignment_probes": 5, "cionly_cases": 10}),
-    assumptions=[A_SAN, A_GEN, "senone scores re-computed by the harness through acmod_score with compallsen equal those of the second pass (no active-set dependence)"],
+    assumptions=[A_SAN, A_GEN, "frame scores of the second pass are recorded through hook H1 while decoder_alignment() runs; the first-pass comparison is made only when both passes saw identical scores"],
 )
 
 PROPS["C02"] = dict(
     title="With pruning disabled the search returns the true Viterbi optimum", level="exploration",
     technique="runtime reference-model oracle: an independent unpruned, unshared token-passing Viterbi (harness/h_viterbi.c) over the loaded grammar and the "
-              "utterance's own frame scores, compared with the score and segmentation the real search reports; real code under ASan/UBSan",
+              "utterance's own frame scores (recorded from the search through hook H1), compared with the score and segmentation the real search reports; real code under ASan/UBSan",
     level_text="exploration: generated scenarios (random FSG automata with nulls, loops, branching into and out of states, explicit alternates; right-linear "
                "and slot JSGF incl. word loops; alignment text; vocabularies with one-, two- and many-phone words; fillers and alternates on/off; "
                "lw/wip/pip/silprob/fillprob varied; en-us and fr-fr; triphone and cionly; speech excerpts of 5-400 frames and adversarial signals; all "
@@ -408,7 +408,7 @@ PROPS["C02"] = dict(
     floor=dict(min_evaluations=300, min_distinct=300, counters={"oracle_runs": 300, "exact_optimum_matches": 120, "agreed_no_alignment_exists": 5, "pruned_scores_not_above_optimum": 20,
                                                               "segmentations_achieve_reported_score": 150, "grammars_with_null_arcs": 40, "grammars_with_one_phone_words": 20,
                                                               "grammars_with_word_loops": 30, "grammars_with_fillers": 100, "grammars_without_fillers": 20, "cionly_cases": 10}),
-    assumptions=[A_SAN, A_GEN, "senone scores re-computed by the harness through acmod_score with compallsen equal those the search used",
+    assumptions=[A_SAN, A_GEN, "frame scores are the ones the search itself obtained from acmod_score, recorded through hook H1 (compallsen: every senone of every frame)",
                  "the grammar searched is read back from the loaded FSG (that loading preserves the language is C13/C05's subject)"],
 )
 
